@@ -153,6 +153,79 @@ def reserved_archive(kind, ctx_id, words=None):
                 raise
     return ar, list(items), items
 
+def num_as(rng, v, integral=False):
+    """the number v as the caller might hand it over: Python float, int, numpy scalar, Fraction (same value; GTC's
+    declaration functions coerce them, np.float32 included)"""
+    import numpy as np
+    from fractions import Fraction
+    kind = rng.choice(['float', 'float', 'np.float64', 'np.float64', 'int', 'np.int64', 'Fraction'])
+    if kind == 'float' or math.isinf(v) or math.isnan(v): return v if kind != 'np.float64' else np.float64(v)
+    if kind == 'np.float64': return np.float64(v)
+    if kind in ('int', 'np.int64'):
+        if float(v) != int(v): return np.float64(v) if kind == 'np.int64' else v
+        return int(v) if kind == 'int' else np.int64(int(v))
+    return Fraction(v) if abs(v) < 1e6 else v
+
+def rand_const(rng):
+    """a plain-number operand of an arithmetic operation: the derivative it contributes is stored as it comes out of the
+    operation (a numpy scalar stays a numpy scalar in the component vectors)"""
+    import numpy as np
+    from fractions import Fraction
+    return rng.choice([2.5, 3, -2, True, np.float64(0.75), np.float64(-3.5), np.array([2.0, 0.125])[1], np.int64(3),
+                       np.array([7, 2])[0], Fraction(1, 4), Fraction(7, 2), 1e-3, np.float64(1e6), 2.5, 3, np.float64(0.75),
+                       # known finding C09-9: non-float64 numpy floating constants leave float32 numbers in the stored vectors
+                       np.float32(2.0), np.float32(0.1), np.array([0.3], dtype=np.float32)[0]])
+
+def numeric_archive(ctx_id):
+    """numbers handed to GTC in every accepted guise: declarations with int / numpy scalar / Fraction arguments, results
+    computed with int, bool, Fraction and numpy scalar constants (numpy scalars survive in the stored component vectors).
+    np.float32 CONSTANTS are in numeric32_archive (known finding C09-9).  -> (archive, tags, {tag: object})"""
+    import numpy as np
+    from fractions import Fraction
+    from GTC import core, archive as garchive
+    new_context(ctx_id)
+    gains = np.array([2.0, 0.125]); counts = np.array([7, 2])
+    items = {}
+    items['d_int'] = core.ureal(2, 1, 4)
+    items['d_np'] = core.ureal(np.float64(1.5), np.float64(0.25), np.float64(6.5), independent=False)
+    items['d_npint'] = core.ureal(np.int64(3), np.int64(2), np.int64(9))
+    items['d_frac'] = core.ureal(Fraction(3, 2), Fraction(1, 4), 5)
+    items['d_f32'] = core.ureal(np.float32(1.5), np.float32(0.25), np.float32(4))
+    items['z_np'] = core.ucomplex(np.complex128(1 + 2j), (np.float64(1), np.float64(2)), np.int64(5))
+    m = core.multiple_ureal(np.array([1.0, 2.0]), np.array([0.1, 0.2]), np.int64(5))
+    core.set_correlation(np.float64(0.5), m[0], m[1])
+    items['m0'], items['m1'] = m
+    x = items['d_np']; v = items['d_int']
+    items['r_npmul'] = core.result(v * gains[0])
+    items['r_npdiv'] = core.result(v / gains[1] + x)
+    items['r_nprmul'] = core.result(gains[1] * x - v)
+    items['r_npint'] = core.result(x * counts[0])
+    items['r_nppow'] = core.result(v ** np.float64(2.0))
+    items['r_int'] = core.result(3 * x + 1)
+    items['r_bool'] = core.result(x * True)
+    items['r_frac'] = core.result(x * Fraction(1, 4))
+    items['r_chain'] = core.result(items['r_npmul'] * gains[1] + items['r_npint'] / np.int64(2))
+    items['rz_np'] = core.result(items['z_np'] * gains[0] + x)
+    ar = garchive.Archive()
+    ar.add(**items)
+    return ar, list(items), items
+
+def numeric32_archive(ctx_id):
+    """results computed with numpy.float32 constants (known finding C09-9): an exact factor and inexact ones"""
+    import numpy as np
+    from GTC import core, archive as garchive
+    new_context(ctx_id)
+    x = core.ureal(1.5, 0.25, 4, label='x'); v = core.ureal(2.0, 0.5, 6, independent=False)
+    g32 = np.array([2.0, 0.1, 0.3], dtype=np.float32)
+    items = {'x': x, 'v': v,
+             'y_exact': core.result(x * g32[0]),              # factor 2.0: every number is exact, only the type differs
+             'y_inexact': core.result(x * np.float32(0.1)),   # float32(0.1) != 0.1
+             'y_two': core.result(v * g32[2] + x / g32[1]),
+             'y_f64': core.result(x * np.float64(0.1) + v)}    # float64 constant: not in the class
+    ar = garchive.Archive()
+    ar.add(**items)
+    return ar, list(items), items
+
 def build_archive(rng, ctx_id, labels=LABELS):
     """a random session in Context(id=ctx_id) and an Archive holding a random selection of its objects.
     Returns (archive, description, {tag: object})."""
@@ -162,10 +235,12 @@ def build_archive(rng, ctx_id, labels=LABELS):
     reals = []; cplx = []; desc = {'ctx': ctx_id, 'ops': []}
     for _ in range(rng.randint(1, 4)):
         df = rand_df(rng); ind = rng.random() < 0.6
-        reals.append(core.ureal(rand_val(rng), rand_u(rng), df, label=lab(), independent=ind))
+        reals.append(core.ureal(num_as(rng, rand_val(rng)), num_as(rng, rand_u(rng)), num_as(rng, df), label=lab(), independent=ind))
     if rng.random() < 0.5:
         n = rng.randint(2, 3)
-        ens = core.multiple_ureal([rand_val(rng) for _ in range(n)], [rand_u(rng) for _ in range(n)], rng.choice([3, 5.5, 11]),
+        import numpy as np
+        seq = (lambda l: np.array(l)) if rng.random() < 0.4 else (lambda l: l)
+        ens = core.multiple_ureal(seq([rand_val(rng) for _ in range(n)]), seq([rand_u(rng) for _ in range(n)]), num_as(rng, rng.choice([3, 5.5, 11])),
                                   label_seq=[lab() if rng.random() < 0.5 else 'e%d' % i for i in range(n)])
         for i in range(n):
             for j in range(i):
@@ -186,14 +261,19 @@ def build_archive(rng, ctx_id, labels=LABELS):
             u1, u2 = rand_u(rng), rand_u(rng); r = round(rng.uniform(-0.9, 0.9), 2)
             c = core.ucomplex(z, (u1 * u1, r * u1 * u2, r * u1 * u2, u2 * u2), label=lab())
         else:
-            c = core.ucomplex(z, (rand_u(rng), rand_u(rng)), rng.choice([2, 9.5]), label=lab())
+            import numpy as np
+            c = core.ucomplex(np.complex128(z) if rng.random() < 0.5 else z, (num_as(rng, rand_u(rng)), num_as(rng, rand_u(rng))),
+                              num_as(rng, rng.choice([2, 9.5])), label=lab())
         cplx.append(c); desc['ops'].append('ucomplex-' + kind)
     inter = []
     pool = list(reals)
     for _ in range(rng.choice([0, 1, 2, 3])):
         a, b = rng.choice(pool), rng.choice(pool)
-        op = rng.choice(['add', 'mul', 'sub', 'lin'])
-        y = {'add': lambda: a + b, 'mul': lambda: a * b, 'sub': lambda: a - 2.5 * b, 'lin': lambda: 3 * a + 0.25}[op]()
+        op = rng.choice(['add', 'mul', 'sub', 'lin', 'cmul', 'cdiv', 'rcmul', 'clin', 'cmul'])
+        k = rand_const(rng)
+        y = {'add': lambda: a + b, 'mul': lambda: a * b, 'sub': lambda: a - 2.5 * b, 'lin': lambda: 3 * a + 0.25,
+             'cmul': lambda: a * k, 'cdiv': lambda: a / k, 'rcmul': lambda: k * a - b, 'clin': lambda: (a + k) * k}[op]()
+        if op in ('cmul', 'cdiv', 'rcmul', 'clin'): op += ':' + type(k).__name__
         y = core.result(y, label=lab())
         inter.append(y); pool.append(y); desc['ops'].append('result-' + op)
     cinter = []
